@@ -7,3 +7,9 @@ pub(crate) mod c42 {
     use super::super::*;
     include!(concat!(env!("LIBP2P_VERIF"), "/units/C42/behaviour.rs"));
 }
+
+pub(crate) mod c43 {
+    #[allow(unused_imports)]
+    use super::super::*;
+    include!(concat!(env!("LIBP2P_VERIF"), "/units/C43/behaviour.rs"));
+}
